@@ -20,7 +20,7 @@ class Outcome:
     decoded  human-readable decoding (ops, schedule, faults, observed/expected)
     """
 
-    __slots__ = ("sig", "known", "detail", "trace", "case", "counters", "decoded", "sim_time")
+    __slots__ = ("sig", "known", "detail", "trace", "case", "counters", "decoded", "sim_time", "evals", "cases")
 
     def __init__(self) -> None:
         self.sig: tuple | None = None
@@ -31,6 +31,8 @@ class Outcome:
         self.counters: dict[str, int] = {}
         self.decoded: dict = {}
         self.sim_time: float = 0.0
+        self.evals: int = 1  # executions this run stands for (C30: one per compilation)
+        self.cases: list[str] = []  # further distinct non-trivial case digests of this run
 
     def count(self, key: str, n: int = 1) -> None:
         self.counters[key] = self.counters.get(key, 0) + n
